@@ -221,6 +221,10 @@ def renest_moved_functions(modules, exits):
             nf.args.args = [a_ for a_ in nf.args.args if a_.arg not in captured]
             sub = _ParamSubst({p: v for p, v in cap.items() if not (isinstance(v, ast.Name) and v.id == p)})
             nf.body = [sub.visit(st) for st in nf.body]
+            if bare2 != g:                       # recursive mentions
+                for x in ast.walk(nf):
+                    if isinstance(x, ast.Name) and x.id == bare2:
+                        x.id = g
             for c, m, explicit in bound:
                 c.func = ast.copy_location(ast.Name(id=g, ctx=ast.Load()), c.func)
                 c.args = [m[p] for p in old_params if p in explicit]
@@ -718,5 +722,37 @@ def star_comp_to_map(tree, recorded):
             continue
         a.value = ast.copy_location(ast.Call(func=ast.Name(id="map", ctx=ast.Load()), args=[e.func, g.iter], keywords=[]), comp)
         n += 1
+    ast.fix_missing_locations(tree)
+    return n
+
+
+
+def beta_reduce(tree):
+    """(lambda p, q: E)(a, b) is E with p, q replaced (plain positional parameters, each argument a name / attribute / constant or the parameter read at most once)"""
+    n = 0
+
+    class T(ast.NodeTransformer):
+        def visit_Call(self, c):
+            nonlocal n
+            self.generic_visit(c)
+            f = c.func
+            if isinstance(f, ast.Lambda) and not c.keywords and not any(isinstance(a, ast.Starred) for a in c.args):
+                a = f.args
+                if a.vararg or a.kwarg or a.kwonlyargs or a.posonlyargs or a.defaults or len(a.args) != len(c.args):
+                    return c
+                params = [x.arg for x in a.args]
+                for p_, v in zip(params, c.args):
+                    uses = sum(1 for x in ast.walk(f.body) if isinstance(x, ast.Name) and x.id == p_)
+                    if uses > 1 and not isinstance(v, (ast.Name, ast.Attribute, ast.Constant)):
+                        return c
+                if any(isinstance(x, (ast.Lambda, ast.ListComp, ast.GeneratorExp, ast.SetComp, ast.DictComp)) for x in ast.walk(f.body)):
+                    inner_bound = {y.arg for x in ast.walk(f.body) if isinstance(x, ast.Lambda) for y in x.args.args}
+                    if inner_bound & set(params):
+                        return c
+                n += 1
+                return ast.copy_location(_ParamSubst(dict(zip(params, c.args))).visit(copy.deepcopy(f.body)), c)
+            return c
+    for i, st in enumerate(tree.body):
+        tree.body[i] = T().visit(st)
     ast.fix_missing_locations(tree)
     return n
